@@ -18,7 +18,11 @@ Record akey := mkKey {
   k_account : bytes;                             (* account-id *)
   k_since : Z;
   k_until : option Z;                            (* None: until is the zero time *)
-  k_constraints : list (list (bytes * bytes))    (* alternatives of header = literal conjunctions (incl. type) *)
+  k_constraints : option (list (list (bytes * bytes)))
+                                                 (* the `constraints` header: None = no such header (unconstrained key);
+                                                    Some cs = header present, one entry per listed constraint, each the
+                                                    header = literal pairs of its `headers` map (incl. the mandatory
+                                                    type), whether or not this snapd knows the type *)
 }.
 
 (* an assertion as Database.Check sees it *)
@@ -54,13 +58,22 @@ Definition valid_assuming (k : akey) (earliest : Z) (latest : option Z) : bool :
   end
   && match k_until k with Some u => negb (u <=? earliest) | None => true end.
 
-(* AccountKey.canSign -> matchAgainstConstraints *)
+(* checkAKConstraints: EVERY entry of the constraints header becomes one matcher - an entry naming an assertion type this
+   snapd does not know is kept (it matches nothing of ours), never dropped; an entry must name a type *)
+Definition constraint_wf (c : list (bytes * bytes)) : bool :=
+  match assoc (bs "type") c with Some _ => true | None => false end.
+Definition compile_constraints (hdr : option (list (list (bytes * bytes)))) : option (list (list (bytes * bytes))) := hdr.
+Definition key_wf (k : akey) : bool :=
+  match k_constraints k with None => true | Some cs => negb (is_nil_b cs) && forallb constraint_wf cs end.
+
+(* AccountKey.canSign -> matchAgainstConstraints: no constraints header = everything may be signed; with a constraints
+   header the assertion must match one of the compiled entries (zero usable entries = nothing may be signed) *)
 Definition constraint_ok (hs : list (bytes * bytes)) (c : list (bytes * bytes)) : bool :=
   forallb (fun hv => match assoc (fst hv) hs with Some x => beq x (snd hv) | None => false end) c.
 Definition can_sign (k : akey) (a : assertion) : bool :=
-  match k_constraints k with
-  | [] => true
-  | cs => existsb (constraint_ok (a_headers a)) cs
+  match compile_constraints (k_constraints k) with
+  | None => true
+  | Some cs => existsb (constraint_ok (a_headers a)) cs
   end.
 
 (* Database.findAccountKey: the backstores are consulted in order - trusted, predefined, the database's own backstore,
@@ -136,7 +149,14 @@ Definition key_admits (c : clock) (a : assertion) (k : akey) : bool :=
      | CEarliest t => match k_until k with Some u => t <? u | None => true end
      end
   && match a_timestamp a with Some t => valid_at k t | None => true end
-  && match k_constraints k with [] => true | cs => existsb (constraint_ok (a_headers a)) cs end.
+  && match k_constraints k with
+     | None => true
+     | Some cs =>      (* some LISTED constraint names the assertion's own type and all its header pairs hold *)
+         existsb (fun c => match assoc (bs "type") c, assoc (bs "type") (a_headers a) with
+                           | Some t, Some t' => beq t t' && constraint_ok (a_headers a) c
+                           | _, _ => false
+                           end) cs
+     end.
 
 Definition deciding_key (layers : list (list akey)) (kid : bytes) : option akey :=
   find (fun k => beq kid (k_id k)) (List.concat layers).
